@@ -173,6 +173,11 @@ func SetSymmetricDifference(sets ...cty.Value) (cty.Value, error) {
 func setOperationReturnType(args []cty.Value) (ret cty.Type, err error) {
 	var etys []cty.Type
 	for _, arg := range args {
+		if arg.Type() == cty.DynamicPseudoType {
+			// A dynamically-typed argument has no element type yet, so the
+			// result type can't be predicted either.
+			return cty.DynamicPseudoType, nil
+		}
 		ty := arg.Type().ElementType()
 
 		// Do not unify types for empty dynamic pseudo typed collections. These
